@@ -72,6 +72,10 @@ impl ValueStack {
     /// Returns Nil if the stack is empty
     #[inline]
     pub fn pop(&mut self) -> Value {
+        if self.count == 0 {
+            // slot 0 may hold a stale value left behind by `pop_n` or `clear_until`
+            return Value::Nil;
+        }
         let count = self.count.saturating_sub(1);
         let value = self.data[count];
         self.count = count;
